@@ -204,7 +204,7 @@ pub fn prop_key(p: &mut Prng) -> raw::ProprietaryKey {
 }
 
 /// proprietary key that no map interprets
-fn foreign_prop_key(p: &mut Prng, first_free_subtype: u8) -> raw::ProprietaryKey {
+pub fn foreign_prop_key(p: &mut Prng, first_free_subtype: u8) -> raw::ProprietaryKey {
     let nk = p.len_biased(40);
     if p.chance(1, 4) {
         // a near miss: the subtype and key shape of a pair the maps DO interpret, under a prefix that is not "pset"
